@@ -96,7 +96,11 @@ pub fn fill_event(idx: usize, v: Value) {
 /// Virtual milliseconds since the start of the phase (only meaningful on the runtime thread).
 pub fn vnow_ms() -> Option<u64> {
 	let t0 = with_run(|r| r.t0).flatten()?;
-	Some(tokio::time::Instant::now().saturating_duration_since(t0).as_millis() as u64)
+	Some(
+		tokio::time::Instant::now()
+			.saturating_duration_since(t0)
+			.as_millis() as u64,
+	)
 }
 
 fn rule_matches(rule: &Value, idx: usize, kind: &str, nth: usize, ca: &str) -> bool {
@@ -154,7 +158,11 @@ pub fn choice(kind: &str, ca: &str, extra: Value) -> (usize, String) {
 		let mut answer = "ok".to_string();
 		for rule in r.script.iter() {
 			if rule_matches(rule, idx, kind, nth, ca) {
-				answer = rule.get("answer").and_then(|v| v.as_str()).unwrap_or("ok").to_string();
+				answer = rule
+					.get("answer")
+					.and_then(|v| v.as_str())
+					.unwrap_or("ok")
+					.to_string();
 				break;
 			}
 		}
@@ -192,7 +200,9 @@ pub async fn attempt_end(cert: &Certificate, is_success: bool) {
 		Value::Null
 	};
 	let id = cert.get_id();
-	log_event(json!({"ev": "attempt_end", "cert": id, "t": t, "success": is_success, "files": files}));
+	log_event(
+		json!({"ev": "attempt_end", "cert": id, "t": t, "success": is_success, "files": files}),
+	);
 	let park = with_run(|r| {
 		let n = r.attempts.entry(id.clone()).or_insert(0);
 		*n += 1;
@@ -261,7 +271,11 @@ fn worker() {
 		let req: Value = match serde_json::from_str(&line) {
 			Ok(v) => v,
 			Err(e) => {
-				let _ = writeln!(stdout.lock(), "{}", json!({"ok": false, "machinery_error": format!("bad request: {e}")}));
+				let _ = writeln!(
+					stdout.lock(),
+					"{}",
+					json!({"ok": false, "machinery_error": format!("bad request: {e}")})
+				);
 				continue;
 			}
 		};
